@@ -85,3 +85,9 @@ def run_part(chk, binary=None, behs=None, shards=8):
     chk.cov["cr_checkpoint_violation_counts"] = counts
     chk.absorb(recs, "CR committee checkpoint / restore at every height of %d behaviours" % len(behs))
     return summary
+
+
+def run_all(chk, shards=8):
+    """Everything for the CR part of C23: builds harness/cmd/crstate, lets TLC generate the behaviours (Checkpoint
+    action enabled, CheckpointLossless checked), runs `crstate checkpoint` on them and absorbs the records into chk."""
+    return run_part(chk, None, None, shards=shards)
